@@ -41,6 +41,7 @@ def make_tree(m):
 
 
 def drop_tree(d):
+    shutil.rmtree(os.path.join(tempfile.gettempdir(), "vf_out_other_tree", os.path.basename(d.rstrip("/"))), ignore_errors=True)
     subprocess.run(["git", "-C", "/repo", "worktree", "remove", "--force", d])
     shutil.rmtree(d, ignore_errors=True)
 
